@@ -93,9 +93,10 @@ func instances(c *core.Ctx) []*Instance {
 
 // a replay unit: one history under one configuration
 type unit struct {
-	inst *Instance
-	cfg  Config
-	rec  *GenRec
+	inst  *Instance
+	cfg   Config
+	rec   *GenRec
+	fault Fault // fault stage only
 }
 
 type mismatch struct {
@@ -169,12 +170,12 @@ func run(c *core.Ctx) error {
 		}
 		for _, cfg := range prim {
 			for _, i := range c.SampleIdx(len(d.recs), perPrimary) {
-				units = append(units, unit{d.inst, cfg, &d.recs[i]})
+				units = append(units, unit{inst: d.inst, cfg: cfg, rec: &d.recs[i]})
 			}
 		}
 		for _, cfg := range sec {
 			for _, i := range c.SampleIdx(len(d.recs), perSecondary) {
-				units = append(units, unit{d.inst, cfg, &d.recs[i]})
+				units = append(units, unit{inst: d.inst, cfg: cfg, rec: &d.recs[i]})
 			}
 		}
 	}
@@ -269,8 +270,120 @@ func run(c *core.Ctx) error {
 		return err
 	}
 
+	if err := faultStage(c, pool, data); err != nil {
+		return err
+	}
+
 	// ---- Elk-level replay
 	return elkLevel(c, pool, data)
+}
+
+// faultStage: atomicity under key faults. Histories of the specification are replayed on the table
+// implementations with keys of a user-defined class; during the LAST operation the hash or the == of
+// one model key raises (a crash point inside Index / SetCapacity / Copy ...). The abstract layer says
+// what is allowed: an operation that reports the error is a stuttering step of the abstract map (the
+// state predicted for the history without its last operation), an operation that completes is the
+// full step (the state predicted for the whole history). Anything else - pairs lost, a half-moved
+// table, counters out of step - is a violation.
+func faultStage(c *core.Ctx, pool *core.Pool, data []*instData) error {
+	var units []unit
+	var pres []*GenRec
+	perCfg := c.Pick(2500, 25000)
+	for _, d := range data {
+		cfgs := []Config{{[2]string{"MapOV", "MapOV"}, "obj"}, {[2]string{"RecOV", "RecOV"}, "obj"}}
+		if d.inst.Kind == "set" {
+			cfgs = []Config{{[2]string{"SetOV", "SetOV"}, "obj"}}
+		}
+		var elig []int
+		for i := range d.recs {
+			r := &d.recs[i]
+			if len(r.Ops) < 2 || len(r.Fired) > 0 || r.Last.Exp.Bad == 1 {
+				continue
+			}
+			pb := Beh{Caps: r.Caps, Ops: r.Ops[:len(r.Ops)-1]}
+			pre := d.byKey[pb.Key()]
+			if pre == nil || len(pre.Fired) > 0 || pre.Last.Exp.Bad == 1 {
+				continue
+			}
+			elig = append(elig, i)
+		}
+		for _, cfg := range cfgs {
+			for _, k := range c.SampleIdx(len(elig), perCfg) {
+				r := &d.recs[elig[k]]
+				pb := Beh{Caps: r.Caps, Ops: r.Ops[:len(r.Ops)-1]}
+				pre := d.byKey[pb.Key()]
+				for key := 1; key <= d.inst.NKeys; key++ {
+					for mode := 1; mode <= 2; mode++ {
+						units = append(units, unit{d.inst, cfg, r, Fault{Key: key, Mode: mode}})
+						pres = append(pres, pre)
+					}
+				}
+			}
+		}
+	}
+	if len(units) == 0 {
+		return core.Inconclusivef("fault stage: no eligible history")
+	}
+	t0 := time.Now()
+	got, err := replayUnits(c, pool, units, false)
+	if err != nil {
+		return err
+	}
+	raised, completed, skipped, bad := 0, 0, 0, 0
+	for i, u := range units {
+		g := got[i].Last
+		if g.Skip != "" {
+			skipped++
+			continue
+		}
+		nops := len(u.rec.Ops)
+		var fields, detail []string
+		kind, against := "", ""
+		switch {
+		case g.Panic != "" || g.Err != "":
+			fields, detail = compareObs(u.inst, &u.rec.Last.Exp, &g, nops)
+			kind = "fault_panic"
+			if g.Panic == "" {
+				kind = "fault_unusable_afterwards"
+			}
+			if len(fields) == 0 {
+				fields, detail = []string{"error"}, []string{g.Err}
+			}
+		case g.FaultErr != "":
+			raised++
+			g2 := g
+			g2.Res = -1
+			fields, detail = compareObs(u.inst, &pres[i].Last.Exp, &g2, nops-1)
+			kind, against = "fault_not_atomic", "the operation reported `"+g.FaultErr+"`, so both collections must be as before it"
+		default:
+			completed++
+			fields, detail = compareObs(u.inst, &u.rec.Last.Exp, &g, nops)
+			kind, against = "fault_lost_update", "the operation completed without reporting an error, so it must have taken full effect"
+		}
+		if len(fields) == 0 {
+			continue
+		}
+		bad++
+		if bad <= 30 {
+			b := u.rec.Beh()
+			what := map[int]string{1: "hash", 2: "=="}[u.fault.Mode]
+			c.Violation(map[string]any{
+				"level": "api-fault", "kind": kind, "fields": strings.Join(uniq(fields), ","), "impl": u.cfg.String(), "collection": u.inst.Kind,
+				"instance": u.inst.Name, "hash": u.inst.Hash, "caps": b.Caps, "ops": b.Ops, "history": b.Text(), "fault": u.fault, "observed": g,
+				"summary": fmt.Sprintf("%s [%s] %s with `%s` of k%d raising during the last operation: %s\n  %s", u.inst.Kind, u.cfg, b.Text(), what, u.fault.Key, against, strings.Join(detail, "\n  ")),
+			})
+		}
+	}
+	c.Cov("fault_units", len(units))
+	c.Cov("fault_last_op_raised", raised)
+	c.Cov("fault_last_op_completed", completed)
+	c.CovAdd("traces_validated_against_impl", len(units)-skipped)
+	c.Logf("fault stage: %d (history, implementation, faulty key, hash/==) units in %.1fs: last operation raised in %d (collections must equal the pre-state), completed in %d (must equal the post-state), %d skipped, %d violations",
+		len(units), time.Since(t0).Seconds(), raised, completed, skipped, bad)
+	if raised == 0 {
+		return core.Inconclusivef("fault stage: no injected fault was ever reached")
+	}
+	return nil
 }
 
 // predictedByActual: does the specification's actual layer (the table algorithm with the recorded
@@ -443,6 +556,12 @@ func replayUnits(c *core.Ctx, pool *core.Pool, units []unit, allObs bool) ([]Beh
 		g.idx = append(g.idx, i)
 	}
 	const chunk = 1500
+	faults := false
+	for _, u := range units {
+		if u.fault.Key > 0 {
+			faults = true
+		}
+	}
 	var jobs []core.Job
 	var jobIdx [][]int
 	for _, k := range order {
@@ -452,6 +571,9 @@ func replayUnits(c *core.Ctx, pool *core.Pool, units []unit, allObs bool) ([]Beh
 			j := APIJob{Kind: g.inst.Kind, NKeys: g.inst.NKeys, Hash: g.inst.Hash, M: M, Cfg: g.cfg, AllObs: allObs}
 			for _, i := range g.idx[lo:hi] {
 				j.Behs = append(j.Behs, units[i].rec.Beh())
+				if faults {
+					j.Faults = append(j.Faults, units[i].fault)
+				}
 			}
 			jobs = append(jobs, core.Job{Kind: "c17api", Payload: j, TimeoutMs: 120000})
 			jobIdx = append(jobIdx, g.idx[lo:hi])
